@@ -25,5 +25,7 @@ Union(lists) == SortedSeqOf(UNION {SeqToSet(x) : x \in lists})
 Inter(a, b) == SortedSeqOf(SeqToSet(a) \cap SeqToSet(b))
 \* index of configuration c in list s (0 if absent)
 IndexOf(s, c) == IF \E i \in DOMAIN s : s[i] = c THEN CHOOSE i \in DOMAIN s : s[i] = c ELSE 0
+\* positions in s of the elements of t (0 where absent); evaluated by tlc2.module.Idl
+Positions(s, t) == [k \in DOMAIN t |-> IndexOf(s, t[k])]
 Relabel(s, a, b) == [i \in DOMAIN s |-> a * s[i] + b]
 =============================================================================
